@@ -1,7 +1,29 @@
 #include "vtrace.h"
+#include <execinfo.h>
+#include <signal.h>
+#include <unistd.h>
 
 FILE *vt_out = NULL;
+/* A fatal signal anywhere in a driver: flush what was recorded, print the signal and the symbolic call stack on stderr and exit.
+ * tools/vlib.py attributes the crash: if the innermost known frame is a library function it becomes a Crash event of the trace
+ * (which no trace specification can consume), if it is harness code it is an infrastructure error. */
+static void vt_on_fatal(int sig) {
+    static volatile sig_atomic_t busy = 0; if (busy) _exit(139); busy = 1;
+    void *bt[48]; int n = backtrace(bt, 48);
+    dprintf(2, "\nVERIF-CRASH sig=%d\n", sig);
+    backtrace_symbols_fd(bt, n, 2);
+    dprintf(2, "VERIF-CRASH-END\n");
+    if (vt_out) fflush(vt_out);
+    _exit(139);
+}
+static void vt_install_crash_handler(void) {
+    static int done = 0; if (done) return; done = 1;
+    /* handlers installed by a driver itself (SIGABRT in drv_api) or by a sanitizer runtime are left alone */
+    int sigs[] = {SIGSEGV, SIGBUS, SIGFPE, SIGILL, SIGABRT};
+    for (int i = 0; i < 5; i++) { struct sigaction old; sigaction(sigs[i], NULL, &old); if (old.sa_handler == SIG_DFL) signal(sigs[i], vt_on_fatal); }
+}
 void vt_open(const char *path) {
+    vt_install_crash_handler();
     vt_out = fopen(path, "w");
     if (!vt_out) { perror(path); exit(2); }
     static char buf[1 << 20];
